@@ -148,7 +148,34 @@ fn gen_tree(r: &mut Rng, depth: usize, bw: &[U256], out: &mut String) {
         }
         return;
     }
-    match r.below(12) {
+    match r.below(15) {
+        12..=14 => {
+            // any node kind of the value language, with its own arity and payload (the size of a
+            // node is computed by one match arm per kind)
+            let (k, sig, nk) = crate::sv_gen::KIND_SHAPES[r.below(crate::sv_gen::KIND_SHAPES.len())];
+            let n = if nk == 255 { 1 + r.below(3) } else { nk };
+            out.push_str(&format!("({k} 0"));
+            if sig == "P" {
+                for i in 0..n {
+                    out.push_str(&format!(" {} {}", 8 * i, 8));
+                }
+            } else {
+                for c in sig.chars() {
+                    match c {
+                        'i' => out.push_str(&format!(" {}", r.below(3))),
+                        'w' => out.push_str(&format!(" 0x{:x}", random_word(r, bw))),
+                        'o' => out.push_str(&format!(" {}", r.below(3))),
+                        _ => out.push_str(&format!(" {}", r.below(200))),
+                    }
+                }
+            }
+            out.push_str(" |");
+            for _ in 0..n {
+                out.push(' ');
+                gen_tree(r, depth - 1, bw, out);
+            }
+            out.push(')');
+        }
         0..=8 => {
             let k = FOLD_KINDS[r.below(FOLD_KINDS.len())];
             out.push_str(&format!("({k} 0 |"));
